@@ -53,6 +53,21 @@ Section Members.
     && negb (is_future (from_unix_ns iv ts_ns) (from_unix_ns iv now_ns)).
 End Members.
 
+(** slot.Now() = Time(time.Now()) = fromUnixNs(time.Now().UnixNano()): the slot of the local
+    clock is computed from the clock READING (ns, untouched) by the same function as the slot
+    of a block timestamp, so both live on the same grid (ms = ns / 10^6 truncated). *)
+Definition now_slot (iv reading_ns : Z) : slot := from_unix_ns iv reading_ns.
+(** a clock that rounds the reading to the nearest millisecond first (half up), as
+    time.Now().Round(time.Millisecond) does: NOT what the code does; kept for the refutation *)
+Definition rounded_now_slot (iv reading_ns : Z) : slot :=
+  from_unix_ns iv (Z.quot (reading_ns + 500000) 1000000 * 1000000).
+(* clock-bracket case: interval ms, clock before / after the call, observed Now() fields *)
+Definition clock_case_ok (c : (Z * Z * Z) * (Z * Z * Z * Z)) : bool :=
+  let '((iv, n0, n1), (ns, ms, p, nx)) := c in
+  let s := now_slot iv ns in
+  (n0 <=? ns) && (ns <=? n1) && (s_ms s =? ms) && (s_prev s =? p) && (s_next s =? nx).
+
+
 (* ---- evaluation helpers for the correspondence check (cases.v) ---- *)
 (* a case: interval ms, bp count, timestamp ns, observed (timeMs, prevIndex, nextIndex, nextBpIndex) *)
 Definition slot_obs (iv n ns : Z) : Z * Z * Z * Z :=
